@@ -19,3 +19,4 @@ open GrVerif.Props.C01
 #print axioms silf_table_total
 #print axioms code_loader_total
 #print axioms accepted_code_class_lookups_in_bounds
+#print axioms pass_total
